@@ -27,7 +27,10 @@ OBLIGATIONS = ['PGA.C08.' + t for t in [
     'C08_read_wf', 'C08_read_only_ring_errors', 'C08_alpha_read', 'C08_alpha_read_full_holds', 'C08_alpha_matches', 'C08_labels_irrelevant',
     # from the text on (parser model of C09 + bridge): PGA/Props/C08Text.lean
     'C08_bridge_shape', 'C08_tab_rule_names', 'C08_text_never_aborts', 'C08_text_syntax_inside', 'C08_text_query_consumed',
-    'C08_text_read_wf', 'C08_text_matches_iff_partial', 'C08_matchText_sound_complete_partial', 'C08_same_tree_same_matches']]
+    'C08_text_read_wf', 'C08_text_matches_iff_partial', 'C08_matchText_sound_complete_partial', 'C08_same_tree_same_matches',
+    # layout (PGA/Proofs/RingLayout.lean: lock-step simulation of the engine; instantiated on the regenerated grammar)
+    'C08_tab_layout_enhanced', 'C08_layout_irrelevant_partial', 'C08_layout_read_partial']] + [
+    'PGA.Ring.eval_sim', 'PGA.Ring.parse_layout', 'PGA.Ring.checkLayout_sound']
 RULE = ('cases = (fragment, molecule) pairs. Fragments: bounded-exhaustive one- and two-atom fragments (every symbol '
         'class x suffix, x prefix, every legal molecule-prefix combination, every constraint form x negation x operator '
         'x number, every bond word) plus random grammar-directed fragments of 1..8 atoms with random layout and label '
@@ -61,8 +64,9 @@ LEVEL_TEXT = ('Lean 4 theorems for every query (any number of atoms, bonds, cons
 LEVEL_NOTE = ('Partial: T1 is proved under the guard "no * suffix" (finding FM1: the reader drops what * asks for; the full statement is '
               'kept and refuted in Lean) and the cap of 10 000 candidates is an explicit hypothesis (F30). Trusted: Lean kernel; RDKit as '
               'graph provider and candidate enumerator (assumptions A-graph, A-cand, re-validated on every case); the hand-written reference '
-              'tables in PGA/Spec/Embeds.lean. Layout independence (filler between tokens does not change the tree) is stated '
-              '(C08_layout_irrelevant_full) but not proved: it is exercised by the text path on random layouts.')
+              'tables in PGA/Spec/Embeds.lean. Layout independence is proved for gaps of two or more filler characters or '
+              'containing a newline / tab, and for leading / trailing filler (C08_layout_irrelevant_partial, any token sequence); turning a '
+              'single blank into another gap is stated (C08_layout_irrelevant_full), not proved, and exercised by the text path on random layouts.')
 
 EXC = None
 
@@ -520,6 +524,17 @@ def run_model(ctx, requests, fcs):
                                        'detail': '%s; RDKit candidate list = model enumerator on %d cases, %d differences' % (prev['detail'], ncmp, acand_bad)}
 
 
+def layout_group(ctx, frag, k):
+    """k random layouts of one fragment; counts how many (first, other) pairs fall under the proved layout theorem"""
+    ls = [RG.render_gaps(frag, ctx.rng) for _ in range(k)]
+    ls.append(RG.alike_variant(frag, ls[0][1], ls[0][2], ctx.rng))
+    for (_, _, g) in ls[1:]:
+        ctx.count('layout_pairs')
+        if RG.gaps_alike(ls[0][2], g):
+            ctx.count('layout_pairs_covered_by_C08_layout_irrelevant_partial')
+    return {'frag': frag, 'texts': [t for (t, _, _) in ls]}
+
+
 def run_layouts(ctx, groups):
     """layout independence on both parsers: every text of a group is another random layout of one fragment; the model (parser
     model + bridge + reader) must give the first text's tree and query for each, the implementation's parser the first text's
@@ -664,7 +679,7 @@ def run(ctx):
             break
         fc = make_case(ctx, frag, 'small', layout=False)
         fcs.append(fc)
-        layout_groups.append({'frag': frag, 'texts': [fc.text, RG.render(frag, rng)]})
+        layout_groups.append(layout_group(ctx, frag, 2))
         if not check_read(ctx, fc) or fc.read != 'ok':
             continue
         run_fragment(ctx, pool, fc, per_small, requests)
@@ -688,7 +703,7 @@ def run(ctx):
             continue
         ents, res = run_fragment(ctx, pool, fc, per_rand, requests, extra_tries=6)
         # further random layouts of the same fragment: parse tree and query must not depend on them (both parsers)
-        layout_groups.append({'frag': frag, 'texts': [fc.text] + [RG.render(frag, rng) for _ in range(ctx.n(2, 4))]})
+        layout_groups.append(layout_group(ctx, frag, 1 + ctx.n(2, 4)))
         # 3. layout / label independence on the implementation itself (relational clause of the property); the renamed and
         # re-laid-out fragment is also a case of its own (oracle, tree path and text path of the model)
         if i % 4 == 0:
